@@ -109,7 +109,8 @@ BelowEps(v) == Abs(v) < EpsUnits
 \* relation multipliers [CY]; a relation missing from the table counts 0.6 [code]
 Mult(r) == IF MultMode = "default"
            THEN (CASE r = 1 -> <<1, 1>> [] r = 2 -> <<3, 5>> [] r = 3 -> <<4, 5>> [] OTHER -> <<3, 5>>)
-           ELSE (CASE r = 1 -> <<1, 1>> [] r = 2 -> <<1, 2>> [] r = 3 -> <<1, 4>> [] OTHER -> <<3, 5>>)
+           ELSE (CASE r = 1 -> <<1, 1>> [] r = 2 -> <<1, 2>> [] r = 3 -> <<1, 4>> [] r = 5 -> <<0, 1>> [] OTHER -> <<3, 5>>)
+\* (r = 5: a relation configured with the multiplier 0 - it spreads nothing, unlike a relation MISSING from the table)
 
 \* distance decay [CY names, code formulas]; rate is 1/2 in every world, alpha is 1
 Decay(d, c) == IF c.mode = "attn_quad" THEN <<1, 1 + d * d>>
